@@ -5,6 +5,7 @@ import (
 	"encoding/binary"
 	"fmt"
 	"math/rand"
+	"net"
 	"sort"
 	"sync"
 	"sync/atomic"
@@ -438,7 +439,7 @@ func genMbRequest(r *vlib.R, spec mbMapSpec) (byte, []byte) {
 
 func runC18(tier string, _ []string) int {
 	c := vlib.NewCtx("C18", tier, "exploration")
-	c.SetRule("requests: function codes 1,2,3,4,5,6,15,16 from structured generators (address and quantity at 0,1,limit-1,limit,limit+1,2040/2041,0x7FFF,0x8000,0xFFFF, straddling the end of each mapped range and 65535->0; byte counts off by one; validator-friendly and hostile values; truncations and extra bytes) plus raw random (function code 0..255, random data), replayed as a stateful sequence against 7 register maps (empty, sparse, dense, dense with validators, top of address space, coil top, coils only). Oracle: reference server written from the Modbus spec v1.1b3; compared: response PDU, error return, register file (addressed registers every request, the whole file every 64 requests). distinct = (map, model outcome class, actual outcome) Finally 3-8 goroutines call ProcessRequest on one register file at once (as the handlers of a TCP server do), each writing coils only it owns inside registers shared with the others, reading each back and comparing all at rest. About 3% of the steps extend the live register file between two requests (AddReg next to existing registers, AddCoil, a validator on an existing register); the model follows.")
+	c.SetRule("requests: function codes 1,2,3,4,5,6,15,16 from structured generators (address and quantity at 0,1,limit-1,limit,limit+1,2040/2041,0x7FFF,0x8000,0xFFFF, straddling the end of each mapped range and 65535->0; byte counts off by one; validator-friendly and hostile values; truncations and extra bytes) plus raw random (function code 0..255, random data), replayed as a stateful sequence against 7 register maps (empty, sparse, dense, dense with validators, top of address space, coil top, coils only). Oracle: reference server written from the Modbus spec v1.1b3; compared: response PDU, error return, register file (addressed registers every request, the whole file every 64 requests). distinct = (map, model outcome class, actual outcome) Finally 3-8 goroutines call ProcessRequest on one register file at once (as the handlers of a TCP server do), each writing coils only it owns inside registers shared with the others, reading each back and comparing all at rest. About 3% of the steps extend the live register file between two requests (AddReg next to existing registers, AddCoil, a validator on an existing register); the model follows. Last, raw frames with header anomalies (MBAP length 0 / 1 / short / long, protocol id, truncated or over-long frames, RTU frames with good and bad CRC) are written to a running Server over TCP and RTU framing: the listener goroutine must not panic.")
 	c.Assume("tolerances: two simultaneous exception causes accept either code; truncated PDUs may get an exception or an error return; extra trailing bytes or a disagreeing byte-count byte with consistent length may be processed or refused with exception 3; multi-writes refused with an exception may leave addressed registers in any state")
 	nReq := c.N(600000, 20000000)
 	perSeq := 400
@@ -679,6 +680,101 @@ func runC18(tier string, _ []string) int {
 		c.Count("concurrent_caller_runs", 1)
 		c.Distinct(fmt.Sprintf("concurrent callers %d", nW))
 	}
+	// ---- the same through the transports: raw frames with header anomalies (MBAP length field 0, 1, too
+	// short, too long, protocol id, truncated and over-long frames; RTU frames with and without a valid
+	// CRC) written to a running Server; the listener must survive every one of them
+	nRaw := c.N(600, 12000)
+	vlib.Parallel(nRaw, 0, func(ri int) {
+		r := vlib.NewR(c.Seed, "c18raw", ri)
+		regs := &modbus.Regs{}
+		regs.AddReg(0, 16)
+		kind := []string{"tcp", "rtu"}[ri%2]
+		c1, c2 := net.Pipe()
+		var st modbus.Transport
+		if kind == "tcp" {
+			st = modbus.NewTCP(c2, 100*time.Millisecond, modbus.TransportServer)
+		} else {
+			st = modbus.NewRTU(c2)
+		}
+		srv := modbus.NewServer(1, st, regs, 0)
+		var panicked atomic.Value
+		done := make(chan struct{})
+		go func() {
+			defer close(done)
+			defer func() {
+				if p := recover(); p != nil {
+					panicked.Store(fmt.Sprint(p))
+				}
+			}()
+			srv.Listen(func(error) {}, func() {}, func() {})
+		}()
+		pdu := []byte{3, 0, byte(r.Intn(20)), 0, byte(1 + r.Intn(4))}
+		if r.Chance(0.3) {
+			pdu = []byte{byte(r.Intn(256))}
+			extra := make([]byte, r.Intn(6))
+			r.Read(extra)
+			pdu = append(pdu, extra...)
+		}
+		var frame []byte
+		if kind == "tcp" {
+			length := 1 + len(pdu)
+			switch r.Intn(8) {
+			case 0:
+				length = 0
+			case 1:
+				length = 1
+			case 2:
+				length = 2
+			case 3:
+				length = len(pdu)
+			case 4:
+				length = 2 + len(pdu) + r.Intn(4)
+			case 5:
+				length = 0xffff
+			}
+			frame = []byte{byte(r.Intn(256)), byte(r.Intn(256)), 0, byte(r.Intn(2) * r.Intn(2)), byte(length >> 8), byte(length), 1}
+			frame = append(frame, pdu...)
+			switch r.Intn(6) {
+			case 0:
+				frame = frame[:r.Intn(len(frame)+1)]
+			case 1:
+				frame = append(frame, make([]byte, 1+r.Intn(300))...)
+			}
+		} else {
+			frame = append([]byte{1}, pdu...)
+			crc := modbus.RtuCrc(frame)
+			frame = append(frame, byte(crc), byte(crc>>8))
+			switch r.Intn(6) {
+			case 0:
+				frame = frame[:r.Intn(len(frame)+1)]
+			case 1:
+				frame[len(frame)-1] ^= 0x01
+			case 2:
+				frame = append(frame, make([]byte, 1+r.Intn(300))...)
+			}
+		}
+		wit := map[string]any{"case": ri, "seed": c.Seed, "transport": kind, "frame": frame}
+		_ = c1.SetDeadline(time.Now().Add(2 * time.Second))
+		if len(frame) > 0 {
+			_, _ = c1.Write(frame)
+		}
+		buf := make([]byte, 512)
+		_ = c1.SetReadDeadline(time.Now().Add(150 * time.Millisecond))
+		_, _ = c1.Read(buf)
+		c.Eval(1)
+		_ = c1.Close()
+		go func() { _ = srv.Close() }()
+		select {
+		case <-done:
+		case <-time.After(10 * time.Second):
+		}
+		if p := panicked.Load(); p != nil {
+			c.Violate("modbus-server:panic-in-listener:"+kind, "Server.Listen panicked on a raw frame: "+p.(string), wit)
+			return
+		}
+		c.Count("raw_frames_survived:"+kind, 1)
+		c.Distinct(fmt.Sprintf("raw %s len~%d", kind, len(frame)/8*8))
+	})
 	c.Require("outcome:norm", 500)
 	c.Require("outcome:exce", 500)
 	return c.Finish()
